@@ -114,11 +114,9 @@ Proof.
     grr W ino; [|nil H|nil H].
     fin H. apply Forall_one. split; [reflexivity|]. split; [eapply one_ev; eassumption|reflexivity].
   - (* batch forget *)
-    assert (F : forall n, exists p e, (match get_real_rootfs s n with
-                 | Ok (SRight b _ id) => (false, [evc b m_forget (ino_of id) 0 c])
-                 | Panic => (true, []) | _ => (false, []) end) = (p, e) /\
+    assert (F : forall n, exists p e, forget_one s c n = (p, e) /\
                  Forall (fun ev => ev_m ev = m_forget /\ ev_one s n ev /\ ev_ino2 ev = 0) e).
-    { intros n. grr W n; eexists; eexists; (split; [reflexivity|]); [|constructor|constructor].
+    { intros n. unfold forget_one. grr W n; eexists; eexists; (split; [reflexivity|]); [|constructor|constructor].
       apply Forall_one. split; [reflexivity|]. split; [eapply one_ev; eassumption|reflexivity]. }
     destruct (F ino1) as (p1 & e1 & E1 & F1). destruct (F ino2) as (p2 & e2 & E2 & F2).
     rewrite E1 in H. destruct p1.
@@ -186,13 +184,10 @@ Proof.
     destruct (get_real_rootfs s parent) as [[?|? ? ?]| |]; fin H; cbn; lia.
   - destruct (get_real_rootfs s ino) as [[?|? ? ?]| |]; fin H; cbn; lia.
   - idtac.
-  set (f := fun ino => match get_real_rootfs s ino with
-                 | Ok (SRight b _ id) => (false, [evc b m_forget (ino_of id) 0 c])
-                 | Panic => (true, []) | _ => (false, []) end) in H.
-  assert (F : forall n, (length (snd (f n)) <= 1)%nat).
-  { intros n. unfold f. destruct (get_real_rootfs s n) as [[?|? ? ?]| |]; cbn; lia. }
+    assert (F : forall n, (length (snd (forget_one s c n)) <= 1)%nat).
+    { intros n. unfold forget_one. destruct (get_real_rootfs s n) as [[?|? ? ?]| |]; cbn; lia. }
   pose proof (F ino1) as F1. pose proof (F ino2) as F2.
-  destruct (f ino1) as [p1 e1]. destruct (f ino2) as [p2 e2]. cbn [snd] in *.
+  destruct (forget_one s c ino1) as [p1 e1]. destruct (forget_one s c ino2) as [p2 e2]. cbn [snd] in *.
   destruct p1; [fin H; lia|]. destruct p2; fin H; rewrite app_length; lia.
   - destruct (get_real_rootfs s ino) as [[?|? ? ?]| |]; fin H; cbn; lia.
   - destruct (get_real_rootfs s ino) as [[?|? ? ?]| |]; try (fin H; cbn; lia).
